@@ -107,6 +107,8 @@ def check(ctx):
         run.error('C18.agree', ind.module.name, 'Indentizer', 'to_list/to_str', 'Indentizer.to_list or to_str vanished')
         return
 
+    _presence_tests(ctx, [ind, prog.cls('text_gen', 'BulletList')])
+
     # ---- C18.agree -------------------------------------------------------------------------------------------------
     rets = [n for n in iter_own_nodes(to_str.node) if isinstance(n, ast.Return) and n.value is not None]
     param = to_str.params()[1].arg if len(to_str.params()) > 1 else None
@@ -432,3 +434,43 @@ def _prefix_rule(ctx, ind: ClassInfo):
     if n < 4:
         run.error('C18.prefix', post.module.name, post.qualname, 'prefix assignments',
                   f'only {n} prefix assignments recognised (5 confirmed by hand)')
+
+
+def _presence_tests(ctx, classes):
+    """C18.presence: `if indentizer:` / `self.bullet_list and ...` mean "one was given".  That reading holds only while the
+    class of the tested object defines neither __bool__ nor __len__; with one of them an indentizer of width 0 (or a bullet
+    list with an empty glyph) silently counts as absent and the previous indentation stays in force."""
+    run, prog, cg = ctx.run, ctx.prog, ctx.cg
+    fqs = {c.fq: c for c in classes if c is not None}
+    tests = []
+    for fn in prog.all_functions():
+        env = cg.env(fn)
+        for n in iter_own_nodes(fn.node):
+            subjects = []
+            if isinstance(n, (ast.If, ast.While, ast.IfExp)):
+                subjects.append(n.test)
+            elif isinstance(n, ast.BoolOp):
+                subjects.extend(n.values[:-1])
+            elif isinstance(n, ast.UnaryOp) and isinstance(n.op, ast.Not):
+                subjects.append(n.operand)
+            elif isinstance(n, ast.comprehension):
+                subjects.extend(n.ifs)
+            elif isinstance(n, ast.Assert):
+                subjects.append(n.test)
+            for e in subjects:
+                if isinstance(e, (ast.BoolOp, ast.Compare, ast.UnaryOp, ast.Call, ast.Constant)):
+                    continue      # judged at their own operands / not a bare object
+                t = strip_opt(env.type_of(e))
+                ts = t[1] if t[0] == 'union' else [t]
+                for x in ts:
+                    x = strip_opt(x)
+                    if x[0] == 'cls' and x[1] in fqs:
+                        tests.append((fn, e, fqs[x[1]]))
+    for fn, e, c in tests:
+        dunder = next((prog.lookup_method(c, d) for d in ('__bool__', '__len__') if prog.lookup_method(c, d) is not None), None)
+        run.add('C18.presence', fn.module.name, fn.qualname, e, dunder is None,
+                f'`{ast.unparse(e)}` tests whether an {c.name} was given ({c.name} has no __bool__ / __len__)' if dunder is None else
+                f'`{ast.unparse(e)}` is meant as "an {c.name} was given", but {dunder.qualname} makes an {c.name} falsy for some '
+                f'configurations (zero width / empty): that configuration is then ignored and the previous indentation applies',
+                node=e)
+    run.floor('C18.presence', 3)
